@@ -22,7 +22,8 @@ ASSUMPTIONS = [
 CASES = [
     # solver, kw, datafit, penalty key, storages
     ("AndersonCD", dict(), "Quadratic", "L1"), ("AndersonCD", dict(ws_strategy="fixpoint"), "Quadratic", "L1"),
-    ("AndersonCD", dict(), "Quadratic", "L1_plus_L2"), ("AndersonCD", dict(), "Quadratic", "WeightedL1"), ("AndersonCD", dict(), "Quadratic", "MCPenalty"),
+    ("AndersonCD", dict(), "Quadratic", "L1_plus_L2"), ("AndersonCD", dict(), "Quadratic", "WeightedL1"), ("AndersonCD", dict(p0=1), "Quadratic", "WeightedL1"),
+    ("ProxNewton", dict(p0=1), "Quadratic", "WeightedL1"), ("GroupBCD", dict(p0=1), "QuadraticGroup", "WeightedGroupL2"), ("AndersonCD", dict(), "Quadratic", "MCPenalty"),
     ("AndersonCD", dict(), "Quadratic", "WeightedMCPenalty"), ("AndersonCD", dict(), "Logistic", "L1"), ("AndersonCD", dict(), "Huber", "L1"),
     ("ProxNewton", dict(), "Logistic", "L1"), ("ProxNewton", dict(), "Logistic", "L1_plus_L2"), ("ProxNewton", dict(), "Quadratic", "WeightedL1"),
     ("GramCD", dict(), None, "L1"), ("GramCD", dict(greedy_cd=False, use_acc=True), None, "L1_plus_L2"), ("FISTA", dict(), "Quadratic", "L1"),
@@ -111,9 +112,7 @@ def exec_case(params):
                 continue                                  # unsupported representation, refused with an explanation
             out.append(("exception", res["exc"]["type"] + ": " + res["exc"]["message"][:100], "solve succeeds"))
             continue
-        if not (res["stop_crit"] <= 1e-10):
-            obs.setdefault("unconverged", 0)
-            continue                                      # no convergence claim: nothing to hold the solver to
+        converged = bool(res["stop_crit"] <= 1e-10)    # the null-model equalities need a convergence claim; the zero / non-zero pattern does not
         w = res["w"]
         coef = w[:p]
         obs[tag] = w
@@ -122,7 +121,7 @@ def exec_case(params):
         if tag == "above":
             if nz:
                 out.append(("nonzero_at_alpha_max", dict(alpha_max=amax, coef=np.asarray(coef).tolist()), "penalised coefficients exactly 0"))
-            else:
+            elif converged:
                 scale = 1 + float(np.max(np.abs(y)))
                 if fi:
                     b = w[p]
@@ -234,7 +233,7 @@ def replay(params):
 
 
 def describe(tier, agg):
-    rule = ("20 (solver, strategy, datafit, penalty) cases covering every penalty with alpha_max, the group helper and the row penalty x "
+    rule = ("23 (solver, strategy, p0, datafit, penalty) cases covering every penalty with alpha_max, the group helper and the row penalty x "
             "designs {6x3, 3x5, 4x4, duplicated column} x targets incl. a non-centred one x intercept on/off x penalty variants (positive, "
             "l1_ratio in {1, .5}, weights incl. zeros, gamma) x dense/CSC; the library's alpha_max from the reference gradient at the "
             "reference null model; solves at alpha_max (1 + 1e-8) and (1 - 1e-3); SqrtLasso's automatic path; distinct = distinct non-zero "
